@@ -389,7 +389,7 @@ def prStmt (d : Gen.D) : Stmt → P
       pure s!"{w}UPDATE {tn t} SET {joinS ", " ss}{tl}"
   | .delete t wh ob lm => do let tl ← prTail d wh ob lm; pure s!"DELETE FROM {tn t} {tl}"
   | .createTable c => if d == .MYSQL then prCreateMysql c else if d == .HIVE then prCreateHive c else .error .parse
-  | .createTableAs t q => (prQ d q).map fun s => s!"CREATE TABLE {tn t} AS {s}"
+  | .createTableAs t ine q => (prQ d q).map fun s => s!"CREATE TABLE {if ine then "IF NOT EXISTS " else ""}{tn t} AS {s}"
   | .dropTable b t => .ok s!"DROP TABLE {if b then "IF EXISTS " else ""}{tn t}"
   | .set c => .ok s!"SET {c.name}={c.value}"
   | .analyze t p fc cm ns =>
